@@ -23,6 +23,8 @@ func init() {
 			{"NONCE", ruleNonce},
 			{"SETID-SORTED", ruleSetIDSorted},
 			{"NORMALISE-IDENTITY", ruleNormaliseIdentity},
+			{"SETID-NO-OVERWRITE", ruleSetIDNoOverwrite},
+			{"SCHEMA-SHAPE-LOCAL", ruleSchemaShapeLocal},
 			{"DOCID-VERIFY", ruleDocIDVerify},
 		},
 		Meta: eng.PropMeta{
@@ -575,4 +577,205 @@ func ruleNormaliseIdentity(c *eng.Ctx) {
 		})
 	}
 	c.Floor(rule, n, 3)
+}
+
+// ruleSetIDNoOverwrite: while schemas are grouped into sets, a schema that has been placed in a set
+// stays there: every store `schemaSetIds[K] = …` in mapSchemaSetIDs is reached only through a
+// comma-ok lookup of schemaSetIds[K] (whose hit is reused, and whose miss allows a new id). A store
+// reached without consulting the map overwrites the membership of a circle found earlier, and which
+// circle is found earlier depends on which types share one AddSchema call.
+func ruleSetIDNoOverwrite(c *eng.Ctx) {
+	const rule = "SETID-NO-OVERWRITE"
+	fi := c.Anchor(rule, "internal/db.mapSchemaSetIDs")
+	if fi == nil {
+		return
+	}
+	info := fi.Pkg.TypesInfo
+	var setIDs types.Object
+	for _, p := range paramObjs(info, fi.Decl) {
+		if mt, ok := p.Type().Underlying().(*types.Map); ok && mt.Key().String() == "string" && mt.Elem().String() == "int" {
+			setIDs = p
+		}
+	}
+	if setIDs == nil {
+		c.Unknown(rule, "mapSchemaSetIDs:set-id-map", fi.Decl.Pos(), "anchor-unresolved: the map[string]int of assigned set ids")
+		return
+	}
+	flow := eng.NewFlow(info, fi.Decl.Body)
+	n := 0
+	ast.Inspect(fi.Decl.Body, func(m ast.Node) bool {
+		as, ok := m.(*ast.AssignStmt)
+		if !ok || len(as.Lhs) != 1 {
+			return true
+		}
+		ix, ok := ast.Unparen(as.Lhs[0]).(*ast.IndexExpr)
+		if !ok || eng.ObjOf(info, ix.X) != setIDs {
+			return true
+		}
+		key := eng.ExprStr(ix.Index)
+		n++
+		pt, ok := flow.PointOf(as)
+		if !ok {
+			return true
+		}
+		// start from the innermost enclosing loop body (each relation is a fresh decision)
+		lookup := func(nd ast.Node) bool {
+			a2, ok := nd.(*ast.AssignStmt)
+			if !ok || len(a2.Lhs) != 2 || len(a2.Rhs) != 1 {
+				return false
+			}
+			ix2, ok := ast.Unparen(a2.Rhs[0]).(*ast.IndexExpr)
+			return ok && eng.ObjOf(info, ix2.X) == setIDs && eng.ExprStr(ix2.Index) == key
+		}
+		un := false
+		if loop := loopOf(fi.Decl.Body, as); loop != nil {
+			if rs, ok := loop.(*ast.RangeStmt); ok && len(rs.Body.List) > 0 {
+				if sp, ok := flow.PointOf(rs.Body.List[0]); ok {
+					un = flow.Forward(sp, true, eng.Walk{Visit: func(p eng.Point, nd ast.Node) eng.Action {
+						if p == pt {
+							return eng.Hit
+						}
+						if lookup(nd) {
+							return eng.Cut
+						}
+						return eng.Continue
+					}})
+				}
+			}
+		} else {
+			un = flow.ReachesWithout(pt, lookup, nil)
+		}
+		c.Check(!un, rule, fmt.Sprintf("mapSchemaSetIDs:store(schemaSetIds[%s])#%d:after-lookup", key, n), as.Pos(), "the set id of "+key+" is stored only after its current assignment was looked up",
+			"schemaSetIds["+key+"] is assigned on a path that never looked up whether "+key+" already belongs to a set: a one-way relation into a circle found earlier moves that schema out of its circle, so the ids of the circle's types depend on which other types are added in the same call")
+		return true
+	})
+	c.Floor(rule, n, 2)
+}
+
+// ruleSchemaShapeLocal: the field list of a schema — which is what its version id is a hash of — is
+// computed from the type's own declaration. In the SDL parser's finalizeRelations every write to
+// Schema.Fields must be reachable whether or not the related type is declared in the same SDL: a
+// write that is reachable only when a search over the other definitions of the same call succeeds
+// makes the schema (and hence every identifier) depend on how the types are partitioned across calls.
+func ruleSchemaShapeLocal(c *eng.Ctx) {
+	const rule = "SCHEMA-SHAPE-LOCAL"
+	fi := c.Anchor(rule, "internal/request/graphql/schema.finalizeRelations")
+	if fi == nil {
+		return
+	}
+	info := fi.Pkg.TypesInfo
+	ps := paramObjs(info, fi.Decl)
+	if len(ps) == 0 {
+		c.Unknown(rule, "finalizeRelations:params", fi.Decl.Pos(), "anchor-unresolved")
+		return
+	}
+	results := ps[0]
+	// variables assigned inside a nested loop over the same-call definitions
+	coDeclared := map[types.Object]bool{}
+	var fieldLoop *ast.RangeStmt
+	ast.Inspect(fi.Decl.Body, func(m ast.Node) bool {
+		rs, ok := m.(*ast.RangeStmt)
+		if !ok || eng.ObjOf(info, rs.X) != results {
+			return true
+		}
+		// nested (not the outermost) loops over results
+		if rs.Pos() > fi.Decl.Body.List[0].Pos() {
+			ast.Inspect(rs.Body, func(x ast.Node) bool {
+				if as, ok := x.(*ast.AssignStmt); ok {
+					for _, l := range as.Lhs {
+						if o := eng.ObjOf(info, l); o != nil {
+							coDeclared[o] = true
+						}
+					}
+				}
+				return true
+			})
+		}
+		return true
+	})
+	ast.Inspect(fi.Decl.Body, func(m ast.Node) bool {
+		if rs, ok := m.(*ast.RangeStmt); ok && fieldLoop == nil {
+			if se, ok := ast.Unparen(rs.X).(*ast.SelectorExpr); ok && se.Sel.Name == "Fields" {
+				fieldLoop = rs
+			}
+		}
+		return true
+	})
+	if fieldLoop == nil || len(fieldLoop.Body.List) == 0 || len(coDeclared) == 0 {
+		c.OK(rule, "finalizeRelations:no-co-declaration-search", fi.Decl.Pos(), "no search over the other definitions of the same call")
+		return
+	}
+	flow := eng.NewFlow(info, fi.Decl.Body)
+	var first ast.Node = fieldLoop.Body.List[0]
+	if is, ok := first.(*ast.IfStmt); ok {
+		first = is.Cond
+		if is.Init != nil {
+			first = is.Init
+		}
+	}
+	start, okStart := flow.PointOf(first)
+	if !okStart {
+		c.Unknown(rule, "finalizeRelations:field-loop-entry", fieldLoop.Pos(), "the entry of the field loop was not found in the flow graph")
+		return
+	}
+	n := 0
+	var dependent []string
+	pos := fieldLoop.Pos()
+	ast.Inspect(fieldLoop.Body, func(m ast.Node) bool {
+		as, ok := m.(*ast.AssignStmt)
+		if !ok {
+			return true
+		}
+		writes := false
+		for _, l := range as.Lhs {
+			if strings.Contains(eng.ExprStr(l), "Schema.Fields") {
+				writes = true
+			}
+		}
+		if !writes {
+			return true
+		}
+		n++
+		pt, ok := flow.PointOf(as)
+		if !ok {
+			return true
+		}
+		reach := func(found bool) bool {
+			return flow.Forward(start, true, eng.Walk{
+				Visit: func(p eng.Point, nd ast.Node) eng.Action {
+					if p == pt {
+						return eng.Hit
+					}
+					return eng.Continue
+				},
+				Edge: func(cond ast.Expr, taken bool) bool {
+					t := eng.EvalBool(info, cond, func(e ast.Expr) eng.Tri {
+						if call, ok := ast.Unparen(e).(*ast.CallExpr); ok {
+							if se, ok := call.Fun.(*ast.SelectorExpr); ok && se.Sel.Name == "HasValue" && coDeclared[eng.ObjOf(info, se.X)] {
+								return eng.TriOf(found)
+							}
+						}
+						return eng.Unknown
+					})
+					switch t {
+					case eng.True:
+						return taken
+					case eng.False:
+						return !taken
+					}
+					return true
+				},
+			})
+		}
+		if !reach(false) && reach(true) {
+			if len(dependent) == 0 {
+				pos = as.Pos()
+			}
+			dependent = append(dependent, c.P.Rel(as.Pos()))
+		}
+		return true
+	})
+	c.Check(len(dependent) == 0, rule, "finalizeRelations:schema-fields-independent-of-co-declared-types", pos, "schema fields are added whether or not the related type is part of the same SDL",
+		fmt.Sprintf("%d addition(s) to the schema's field list (%s) happen only when the related type is declared in the same SDL: `type Yy { x: Xx @primary }` gets the x_id schema field (and another version id) when Xx is defined in the same AddSchema call, and not when Xx was added by an earlier call", len(dependent), strings.Join(dependent, ", ")))
+	c.Floor(rule, n, 1)
 }
